@@ -664,10 +664,16 @@ func runWHChild(c *Ctx, rule string) {
 		// the creation site in Add
 		// (in Add itself, or in a method Add calls on the same receiver, e.g. a lazily-creating nextPage())
 		var site *ssa.Call
+		var lit *ssa.Alloc
 		var findSite func(fn *ssa.Function, depth int)
 		findSite = func(fn *ssa.Function, depth int) {
 			for _, b := range fn.Blocks {
 				for _, ins := range b.Instrs {
+					if al, ok := ins.(*ssa.Alloc); ok && al.Heap {
+						if pt, ok := al.Type().(*types.Pointer); ok && types.Identical(pt.Elem(), pw.Type()) {
+							lit = al
+						}
+					}
 					call, ok := ins.(*ssa.Call)
 					if !ok {
 						continue
@@ -686,6 +692,50 @@ func runWHChild(c *Ctx, rule string) {
 		findSite(add, 0)
 		r.count(rule+"/creation-sites", 1)
 		key := short + ".(*ParquetWriter).Add child"
+		if site == nil && lit != nil {
+			// the next page's writer is built as a struct literal: every option-settable field and the sink are copied
+			// from the parent there
+			got := map[*types.Var]string{}
+			for _, ref := range *lit.Referrers() {
+				if fa, ok := ref.(*ssa.FieldAddr); ok {
+					for _, r2 := range *fa.Referrers() {
+						if st, ok := r2.(*ssa.Store); ok && st.Addr == ssa.Value(fa) {
+							got[fieldOf(fa)] = symExpr(st.Val, 0)
+						}
+					}
+				}
+			}
+			var bad, names []string
+			want := fieldSet{}
+			for f := range settable {
+				want[f] = true
+			}
+			for f := range own {
+				// the sink: the writer-typed field of the object
+				if types.IsInterface(f.Type()) && strings.HasSuffix(f.Type().String(), "io.Writer") {
+					want[f] = true
+				}
+			}
+			for f := range want {
+				names = append(names, f.Name())
+				if got[f] != "load(recv."+roleOf(f)+")" {
+					if got[f] == "" {
+						bad = append(bad, f.Name()+" is not passed on")
+					} else {
+						bad = append(bad, f.Name()+" is set from "+got[f])
+					}
+				}
+			}
+			sort.Strings(bad)
+			sort.Strings(names)
+			pos := u.Pos(lit.Pos())
+			if len(bad) > 0 {
+				r.bad(rule, key, pos, "the writer of the next page (a struct literal) does not inherit the parent's configuration: "+strings.Join(bad, "; ")+": later pages of a chunk can be written with the defaults (another codec than its footer entry says, another page size)")
+			} else {
+				r.ok(rule, key, pos, "the next page's writer is a literal copying "+strings.Join(names, ", ")+" from the parent")
+			}
+			continue
+		}
 		if site == nil {
 			r.undecided(rule, key, u.Pos(add.Pos()), "Add does not create the next page's writer through newParquetWriter")
 			continue
